@@ -9,7 +9,7 @@
      sample_or_shared s b V l = block (bsel s b) V l
      incr_run p y             run the increments  y[d] += v  of p in order
      cell d p                 the entries of p whose destination is d, in program order. *)
-From Coq Require Import List Arith Lia Permutation Bool.
+From Coq Require Import List Arith Lia Permutation Bool Sorted.
 From PV Require Import Tensor.Kernels Tensor.Index Tensor.KernelProofs.
 Import ListNotations.
 
@@ -591,6 +591,28 @@ Section Fold.
       - intros [b [i [Hb [Hi [-> ->]]]]]. exists b. split; [exact Hb|]. apply In_map_range. exists i. auto.
     Qed.
 
+    (* batched destination: y is walked sequentially, and the program restricted to sample b is
+       the batch-1 program shifted to sample b of y and sample b / the shared sample of x *)
+    Theorem inplace_add_sequential : 1 < tbatch sy -> sequential (inplace_add sx sy) (B * V).
+    Proof.
+      intro H1. rewrite inplace_add_form.
+      rewrite (flat_map2_ext B _ (fun b => map (fun i => (b * V + i, bsel sx b * V + i)) (range V))).
+      - apply (seq_nest B V (fun b i => bsel sx b * V + i)).
+      - intros b _. apply map_range_ext. intros i _. rewrite bsel_batched by exact H1. reflexivity.
+    Qed.
+
+    Theorem inplace_add_block b : 1 < tbatch sy -> b < B ->
+      block b V (inplace_add sx sy)
+      = map (fun e => (b * V + fst e, bsel sx b * V + snd e)) (inplace_add (unb sx) (unb sy)).
+    Proof.
+      intros H1 Hb. rewrite inplace_add_form.
+      rewrite (block_flat_map V (fun b => map (fun i => (bsel sy b * V + i, bsel sx b * V + i)) (range V)));
+        [|intro i; rewrite map_length; apply seq_length|exact Hb].
+      unfold inplace_add. rewrite tvolume_unb, !tbatch_unb, HVy. unfold flat_map2. cbn [Nat.max range seq flat_map].
+      rewrite app_nil_r, map_map. apply map_range_ext. intros i _. cbn [fst snd].
+      unfold thas_batch. cbn [unb tbatch Nat.ltb Nat.leb]. rewrite bsel_batched by exact H1. reflexivity.
+    Qed.
+
     Hypothesis HVx : tvolume sx = V.
     (* Shape::has_compatible_batch *)
     Hypothesis Hcompat : tbatch sx = tbatch sy \/ tbatch sx = 1 \/ tbatch sy = 1.
@@ -994,7 +1016,7 @@ Section Matmul.
   Lemma matmul_cells_cover d : 0 < d1 -> 0 < d3 -> d < B * (d1 * d3) ->
     exists b i k, b < B /\ i < d1 /\ k < d3 /\ d = b * (d1 * d3) + i + k * d1.
   Proof.
-    intros H1 H3 Hd. destruct (flat_split d1 d3 B d H1 H3) as [i [k [b [Hi [Hk [Hb E]]]]]]; [lia|].
+    clear Hd1 Hd2 Hd3 HB. intros H1 H3 Hd. destruct (flat_split d1 d3 B d H1 H3) as [i [k [b [Hi [Hk [Hb E]]]]]]; [lia|].
     exists b, i, k. rewrite mm_dst_flat. auto.
   Qed.
 
@@ -1391,7 +1413,7 @@ Section Conv2d.
     exists bn y_c y_x y_y, bn < B /\ y_c < yc /\ y_x < yw /\ y_y < yh /\
       d = bn * Vy + ((y_c * yw + y_x) * yh + y_y).
   Proof.
-    intros H1 H2 H3 Hd. rewrite HVy3 in Hd.
+    clear Hxh Hxw Hxc Hwh Hww Hyh Hyw Hyc HB HVx HVw HVy. intros H1 H2 H3 Hd. rewrite HVy3 in Hd.
     destruct (flat_split yh yw (yc * B) d H1 H2) as [y_y [y_x [hi [Hy [Hx [Hh E]]]]]]; [lia|].
     destruct (flat_split 1 yc B hi ltac:(lia) H3) as [z [y_c [bn [Hz [Hc [Hb E2]]]]]]; [lia|].
     exists bn, y_c, y_x, y_y. rewrite conv_dst_flat. replace z with 0 in E2 by lia. rewrite <- E2. auto.
@@ -1476,29 +1498,34 @@ Section Conv2d.
     Qed.
   End ConvValue.
 
-  (* ---- the shape rule of shape_ops::conv2d: the dilated window of every output position
-     lies inside the padded image, so the signed coordinate the C++ forms is below
-     x_h + p0 (no wrap-around of its int32 arithmetic for images below 2^31) ---- *)
-  Hypothesis Hs0 : 0 < s0.
-  Hypothesis Hfit0 : (wh - 1) * d0 + 1 <= xh + 2 * p0.
-  Hypothesis Hrule0 : yh = (xh + 2 * p0 - ((wh - 1) * d0 + 1)) / s0 + 1.
-
-  Theorem conv2d_window_fits y_y w_y : y_y < yh -> w_y < wh -> y_y * s0 + w_y * d0 < xh + 2 * p0.
-  Proof.
-    intros Hy Hw. pose proof (Nat.mul_div_le (xh + 2 * p0 - ((wh - 1) * d0 + 1)) s0 ltac:(lia)) as Hd.
-    assert (A1 : y_y * s0 <= (yh - 1) * s0) by (apply Nat.mul_le_mono_r; lia).
-    assert (A2 : w_y * d0 <= (wh - 1) * d0) by (apply Nat.mul_le_mono_r; lia).
-    replace (yh - 1) with ((xh + 2 * p0 - ((wh - 1) * d0 + 1)) / s0) in A1 by lia. lia.
-  Qed.
-
-  (* the rule yields the LARGEST such height: one more row would leave the padded image *)
-  Theorem conv2d_height_maximal : xh + 2 * p0 < yh * s0 + (wh - 1) * d0 + 1.
-  Proof.
-    pose proof (Nat.div_mod (xh + 2 * p0 - ((wh - 1) * d0 + 1)) s0 ltac:(lia)) as E.
-    pose proof (Nat.mod_upper_bound (xh + 2 * p0 - ((wh - 1) * d0 + 1)) s0 ltac:(lia)) as M.
-    rewrite Hrule0. lia.
-  Qed.
 End Conv2d.
+
+(* ---- the shape rule of shape_ops::conv2d / pool2d (dilation 1, window for (wh-1)*d0+1):
+   y_h = (x_h + 2 p0 - ((w_h - 1) d0 + 1)) / s0 + 1.  The dilated window of every output position
+   lies inside the padded image, so the coordinate the C++ forms is below x_h + 2 p0 ---- *)
+Theorem conv2d_window_fits xh wh yh p0 s0 d0 :
+  0 < s0 -> (wh - 1) * d0 + 1 <= xh + 2 * p0 ->
+  yh = (xh + 2 * p0 - ((wh - 1) * d0 + 1)) / s0 + 1 ->
+  forall y_y w_y, y_y < yh -> w_y < wh -> y_y * s0 + w_y * d0 < xh + 2 * p0.
+Proof.
+  intros Hs0 Hfit0 Hrule0 y_y w_y Hy Hw.
+  pose proof (Nat.mul_div_le (xh + 2 * p0 - ((wh - 1) * d0 + 1)) s0 ltac:(lia)) as Hd.
+  assert (A1 : y_y * s0 <= (yh - 1) * s0) by (apply Nat.mul_le_mono_r; lia).
+  assert (A2 : w_y * d0 <= (wh - 1) * d0) by (apply Nat.mul_le_mono_r; lia).
+  replace (yh - 1) with ((xh + 2 * p0 - ((wh - 1) * d0 + 1)) / s0) in A1 by lia. lia.
+Qed.
+
+(* the rule yields the LARGEST such height: one more row would leave the padded image *)
+Theorem conv2d_height_maximal xh wh yh p0 s0 d0 :
+  0 < s0 -> (wh - 1) * d0 + 1 <= xh + 2 * p0 ->
+  yh = (xh + 2 * p0 - ((wh - 1) * d0 + 1)) / s0 + 1 ->
+  xh + 2 * p0 < yh * s0 + (wh - 1) * d0 + 1.
+Proof.
+  intros Hs0 Hfit0 Hrule0.
+  pose proof (Nat.div_mod (xh + 2 * p0 - ((wh - 1) * d0 + 1)) s0 ltac:(lia)) as E.
+  pose proof (Nat.mod_upper_bound (xh + 2 * p0 - ((wh - 1) * d0 + 1)) s0 ltac:(lia)) as M.
+  rewrite Hrule0. lia.
+Qed.
 
 (* ================================================================== max_pool2d *)
 (* consecutive blocks of destinations *)
@@ -1510,6 +1537,26 @@ Proof.
   rewrite seq_S, flat_map_app, map_app. cbn [flat_map Nat.add]. rewrite app_nil_r.
   rewrite (IH o) by (intros i Hi; apply H; lia). rewrite (H a) by lia.
   replace (S a * n) with (a * n + n) by lia. rewrite seq_app. reflexivity.
+Qed.
+
+Lemma sorted_app l1 : forall l2, StronglySorted lt l1 -> StronglySorted lt l2 ->
+  (forall a b, In a l1 -> In b l2 -> a < b) -> StronglySorted lt (l1 ++ l2).
+Proof.
+  induction l1 as [|x l1 IH]; intros l2 H1 H2 H; cbn [app]; [exact H2|].
+  inversion H1 as [|? ? Hs Hf]; subst. constructor.
+  - apply IH; [exact Hs|exact H2|]. intros a b Ha Hb. apply H; [right; exact Ha|exact Hb].
+  - apply Forall_app. split; [exact Hf|]. apply Forall_forall. intros b Hb. apply H; [left; reflexivity|exact Hb].
+Qed.
+
+Lemma sorted_flat_map_seq (F : nat -> list nat) : forall n s,
+  (forall i, StronglySorted lt (F i)) ->
+  (forall i j a b, i < j -> In a (F i) -> In b (F j) -> a < b) ->
+  StronglySorted lt (flat_map F (seq s n)).
+Proof.
+  induction n as [|n IH]; intros s H1 H2; cbn [seq flat_map]; [constructor|].
+  apply sorted_app; [apply H1|apply IH; assumption|].
+  intros a b Ha Hb. apply in_flat_map in Hb. destruct Hb as [j [Hj Hb]]. apply in_seq in Hj.
+  apply (H2 s j a b); [lia|exact Ha|exact Hb].
 Qed.
 
 Section Pool2d.
@@ -1605,7 +1652,7 @@ Section Pool2d.
      numeric_limits<float>::lowest() *)
   Theorem pool2d_window_empty r y_x y_y : y_y * s0 + w0 <= p0 -> pool_window r y_x y_y = [].
   Proof.
-    intro H. unfold pool_window, flat_map2. apply flat_map_nil. intros w_x _.
+    clear Hxh Hxw Hyh Hyw Hsx Hxh0 Hxw0. intro H. unfold pool_window, flat_map2. apply flat_map_nil. intros w_x _.
     destruct ((p1 <=? y_x * s1 + w_x) && (y_x * s1 + w_x - p1 <? xw)); [|reflexivity].
     apply flat_map_nil. intros w_y Hw. unfold range in Hw. apply in_seq in Hw.
     replace (p0 <=? y_y * s0 + w_y) with false by (symmetry; apply Nat.leb_gt; lia). reflexivity.
@@ -1627,6 +1674,30 @@ Section Pool2d.
       { apply pool_window_In. exists w_x, w_y. tauto. }
       rewrite E in Hin. destruct Hin.
   Qed.
+
+  (* the scan is column-major: the candidates are visited by strictly increasing address *)
+  Theorem pool_window_sorted r y_x y_y : StronglySorted lt (pool_window r y_x y_y).
+  Proof.
+    clear Hxh Hxw Hyh Hyw Hsx Hxh0 Hxw0. unfold pool_window, flat_map2, range. apply sorted_flat_map_seq.
+    - intro w_x. destruct ((p1 <=? y_x * s1 + w_x) && (y_x * s1 + w_x - p1 <? xw)); [|constructor].
+      apply sorted_flat_map_seq.
+      + intro w_y. destruct ((p0 <=? y_y * s0 + w_y) && (y_y * s0 + w_y - p0 <? xh)); repeat constructor.
+      + intros i j a b Hij Ha Hb.
+        destruct ((p0 <=? y_y * s0 + i) && (y_y * s0 + i - p0 <? xh)) eqn:Ei; [|destruct Ha].
+        destruct ((p0 <=? y_y * s0 + j) && (y_y * s0 + j - p0 <? xh)) eqn:Ej; [|destruct Hb].
+        destruct Ha as [<-|[]]. destruct Hb as [<-|[]]. apply andb_true_iff in Ei, Ej.
+        rewrite Nat.leb_le, Nat.ltb_lt in Ei, Ej. lia.
+    - intros i j a b Hij Ha Hb.
+      destruct ((p1 <=? y_x * s1 + i) && (y_x * s1 + i - p1 <? xw)) eqn:Ei; [|destruct Ha].
+      destruct ((p1 <=? y_x * s1 + j) && (y_x * s1 + j - p1 <? xw)) eqn:Ej; [|destruct Hb].
+      apply andb_true_iff in Ei, Ej. rewrite Nat.leb_le, Nat.ltb_lt in Ei, Ej.
+      apply in_flat_map in Ha, Hb. destruct Ha as [wa [_ Ha]]. destruct Hb as [wb [_ Hb]].
+      destruct ((p0 <=? y_y * s0 + wa) && (y_y * s0 + wa - p0 <? xh)) eqn:Ea; [|destruct Ha].
+      destruct ((p0 <=? y_y * s0 + wb) && (y_y * s0 + wb - p0 <? xh)) eqn:Eb; [|destruct Hb].
+      destruct Ha as [<-|[]]. destruct Hb as [<-|[]]. apply andb_true_iff in Ea, Eb.
+      rewrite Nat.leb_le, Nat.ltb_lt in Ea, Eb.
+      assert ((y_x * s1 + i - p1 + 1) * xh <= (y_x * s1 + j - p1) * xh) by (apply Nat.mul_le_mono_r; lia). lia.
+  Qed.
 End Pool2d.
 
 (* ================================================================== ab_bw, restated *)
@@ -1644,3 +1715,56 @@ Theorem ab_bw_in_bounds sga sgb sgy V B : tvolume sgy = V -> tbatch sgy = B ->
   tvolume sga = V -> tvolume sgb = V -> tbatch sga = 1 \/ tbatch sga = B -> tbatch sgb = 1 \/ tbatch sgb = B ->
   Forall (fun e => fst e < tsize sgy /\ fst (snd e) < tsize sga /\ snd (snd e) < tsize sgb) (ab_bw sga sgb sgy).
 Proof. intros. rewrite ab_bw_is_ab_fw. apply (ab_fw_in_bounds sga sgb sgy V B); assumption. Qed.
+
+(* ================================================================== the signed coordinate *)
+(* conv2d_*_impl and max_pool2d_*_impl form  x_y = -padding + y_y*stride + w_y*dilation  in uint32
+   arithmetic, convert it to int32 and test  x_y >= 0 && x_y < int32(x_height).  Kernels.v models
+   the test on exact naturals (p <=? t) && (t - p <? xh).  The two agree whenever padding and
+   image stay below 2^31 (all values the shape rule lets the kernel form then fit, by
+   conv2d_window_fits); for a padding above 2^31 the C++ wraps around and takes a padding
+   position for an image position. *)
+From Coq Require Import ZArith.
+Local Open Scope Z_scope.
+
+Definition to_i32 (z : Z) : Z :=
+  let u := z mod 4294967296 in if u <? 2147483648 then u else u - 4294967296.
+(* t = y_y*stride + w_y*dilation; sums and products mod 2^32 commute with the exact ones *)
+Definition cxx_in_image (p t xh : Z) : bool :=
+  let c := to_i32 (t - p) in (0 <=? c) && (c <? to_i32 xh).
+Definition ideal_in_image (p t xh : Z) : bool := (p <=? t) && (t - p <? xh).
+
+Lemma to_i32_exact z : -2147483648 <= z < 2147483648 -> to_i32 z = z.
+Proof.
+  intro H. unfold to_i32. cbv zeta.
+  destruct (Z.ltb_spec (z mod 4294967296) 2147483648) as [L|L]; Z.div_mod_to_equations; lia.
+Qed.
+
+Theorem signed_coordinate_exact p t xh :
+  0 <= p <= 2147483648 -> 0 <= xh < 2147483648 -> xh + p <= 2147483648 -> 0 <= t < xh + 2 * p ->
+  cxx_in_image p t xh = ideal_in_image p t xh.
+Proof.
+  intros Hp Hx Hs Ht. unfold cxx_in_image, ideal_in_image. cbv zeta.
+  rewrite (to_i32_exact (t - p)) by lia. rewrite (to_i32_exact xh) by lia.
+  f_equal. destruct (Z.leb_spec 0 (t - p)), (Z.leb_spec p t); lia.
+Qed.
+
+Lemma ideal_of_nat (p t xh : nat) :
+  ideal_in_image (Z.of_nat p) (Z.of_nat t) (Z.of_nat xh) = ((p <=? t)%nat && (t - p <? xh)%nat).
+Proof.
+  unfold ideal_in_image. destruct (Nat.leb_spec p t) as [H|H].
+  - rewrite (proj2 (Z.leb_le _ _)) by lia. cbn [andb].
+    destruct (Nat.ltb_spec (t - p) xh), (Z.ltb_spec (Z.of_nat t - Z.of_nat p) (Z.of_nat xh)); try reflexivity; lia.
+  - rewrite (proj2 (Z.leb_gt _ _)) by lia. reflexivity.
+Qed.
+
+(* padding0 = 2^32-1, x_height = 2, first output row: the C++ test accepts x_y = 1 although the
+   position lies 2^32-1 rows above the image  (conv2d on x = {2}, w = {1}, padding0 = stride0 =
+   4294967295 is accepted by shape_ops::conv2d and returns y[0] = x[1]*w[0] instead of 0) *)
+Theorem signed_coordinate_refuted :
+  cxx_in_image 4294967295 0 2 = true /\ ideal_in_image 4294967295 0 2 = false.
+Proof. vm_compute. split; reflexivity. Qed.
+
+Theorem signed_coordinate_refuted_ex :
+  exists p t xh, 0 <= p < 4294967296 /\ 0 < xh /\ 0 <= t < xh + 2 * p /\
+                 cxx_in_image p t xh = true /\ ideal_in_image p t xh = false.
+Proof. exists 4294967295, 0, 2. vm_compute. repeat split; intro; discriminate. Qed.
